@@ -235,6 +235,12 @@ where
 
 		// write the output representing our change
 		for (id, _, _) in &context.get_outputs() {
+			// an output the wallet already records under this key (the receiving
+			// output of an invoice it pays to itself, merged into this context) is not
+			// change of this transaction: its record and its log entry stay as they are
+			if batch.get(id, &None).is_ok() {
+				continue;
+			}
 			t.num_outputs += 1;
 			let (commit, change_amount) = output_commits.get(&id).unwrap().clone();
 			t.amount_credited += change_amount;
